@@ -3,28 +3,25 @@
    the concatenation of the codewords fresh MQ encoders produce for each pass's decisions
    (T1ProofsRestart), the Rate values are the running lengths, normalizePassRates leaves them
    alone. *)
-From V Require Import Common.Base MQ.MqModel MQ.MqProofs MQ.MqProofsDec MQ.MqProofsRt MQ.MqProofsRt2.
+From V Require Import Common.Base MQ.MqModel MQ.MqProofs MQ.MqProofsDec MQ.MqProofsRt MQ.MqProofsRt2 MQ.MqProofsTerm MQ.MqProofsSeg.
 From V Require Import T1.T1Store T1.T1Ctx T1.T1CtxProofs T1.T1Model T1.T1Bytes T1.T1ProofsBase
   T1.T1ProofsSeq T1.T1ProofsSim T1.T1ProofsMqRt T1.T1ProofsComp T1.T1ProofsRestart.
 
 Definition termall_style (style : Z) : Prop :=
-  Z.land style CblkStyleTermAll <> 0 /\ Z.land style 17 = 0.      (* TERMALL, no LAZY, no PTERM *)
+  Z.land style CblkStyleTermAll <> 0 /\ Z.land style CblkStyleLazy = 0.      (* TERMALL, no LAZY *)
 
 Lemma termall_bits : forall style, termall_style style ->
-  Z.land style CblkStyleLazy = 0 /\ Z.land style CblkStylePterm = 0 /\
-  negb (Z.land style CblkStyleTermAll =? 0) = true.
+  Z.land style CblkStyleLazy = 0 /\ negb (Z.land style CblkStyleTermAll =? 0) = true.
 Proof.
-  intros style [Ht H]. split; [apply (land_sub style 17); [reflexivity|exact H]|].
-  split; [apply (land_sub style 17); [reflexivity|exact H]|].
-  apply negb_true_iff. apply Z.eqb_neq. exact Ht.
+  intros style [Ht H]. split; [exact H|]. apply negb_true_iff. apply Z.eqb_neq. exact Ht.
 Qed.
 
 Lemma termall_raw : forall style bp maxbp pt, termall_style style -> is_lazy_raw bp maxbp pt style = false.
-Proof. intros style bp maxbp pt H. unfold is_lazy_raw. destruct (termall_bits style H) as (-> & _ & _). reflexivity. Qed.
+Proof. intros style bp maxbp pt H. unfold is_lazy_raw. destruct (termall_bits style H) as (-> & _). reflexivity. Qed.
 
 Lemma termall_term : forall style bp maxbp pt, termall_style style -> is_terminating bp maxbp pt style = true.
 Proof.
-  intros style bp maxbp pt H. unfold is_terminating. destruct (termall_bits style H) as (_ & _ & ->).
+  intros style bp maxbp pt H. unfold is_terminating. destruct (termall_bits style H) as (_ & ->).
   destruct ((pt =? 2) && (bp =? 0)); reflexivity.
 Qed.
 
@@ -34,10 +31,16 @@ Definition cxs_ok (cx : list Z) : Prop := Forall cx_ok cx /\ zlen cx = 19.
 Definition next_cx (reset : bool) (cx : list Z) (l : list (Z * Z)) : list Z :=
   if reset then cx0 else e_cx (enc_encode_list (enc_new_cx cx) l).
 
-Fixpoint segs_of (reset : bool) (cx : list Z) (passes : list (list (Z * Z))) : list (list Z) :=
+(* how a terminated MQ pass is closed: ErtermEnc (PTERM) or FlushToOutput *)
+Definition fl (pterm : bool) (e : enc) : enc := if pterm then enc_erterm e else enc_flush_state e.
+(* the codeword a fresh encoder (contexts cx) produces for the decisions l *)
+Definition seg_fn (pterm : bool) (cx : list Z) (l : list (Z * Z)) : list Z :=
+  enc_get_buffer (fl pterm (enc_encode_list (enc_new_cx cx) l)).
+
+Fixpoint segs_of (pterm reset : bool) (cx : list Z) (passes : list (list (Z * Z))) : list (list Z) :=
   match passes with
   | [] => []
-  | l :: r => enc_flush (enc_encode_list (enc_new_cx cx) l) :: segs_of reset (next_cx reset cx l) r
+  | l :: r => seg_fn pterm cx l :: segs_of pterm reset (next_cx reset cx l) r
   end.
 
 Lemma cx0_cxs_ok : cxs_ok cx0.
@@ -83,6 +86,63 @@ Proof.
   destruct (e_post e2) as [|last rest]; [exact E2|]. destruct (last =? 255); [exact E2|exact E2].
 Qed.
 
+Lemma erterm_loop_cx : forall f k e, e_cx (snd (enc_erterm_loop f k e)) = e_cx e.
+Proof.
+  induction f as [|f IH]; intros k e; cbn [enc_erterm_loop]; [reflexivity|].
+  destruct (0 <? k); [|reflexivity]. rewrite IH, enc_byteout_cx. reflexivity.
+Qed.
+
+Lemma erterm_cx : forall e, e_cx (enc_erterm e) = e_cx e.
+Proof.
+  intros e. unfold enc_erterm.
+  destruct (e_post (snd (enc_erterm_loop 4 (11 - e_ct e + 1) e))) as [|last rest]; [apply erterm_loop_cx|].
+  destruct (last =? 255); [apply erterm_loop_cx|]. rewrite enc_byteout_cx. apply erterm_loop_cx.
+Qed.
+
+Lemma fl_cx : forall pterm e, e_cx (fl pterm e) = e_cx e.
+Proof. intros [|] e; [apply erterm_cx|apply flush_state_cx]. Qed.
+
+Lemma fl_buf_ok : forall pterm e, enc_inv e -> buf_ok (e_pre (fl pterm e)).
+Proof.
+  intros [|] e Hinv; cbn [fl].
+  - destruct (erterm_state_spec e Hinv) as (e1 & last1 & stale & _ & _ & _ & Hbuf & Epre & _).
+    rewrite Epre. destruct (last1 =? 255); [eapply buf_ok_tail; exact Hbuf|exact Hbuf].
+  - destruct (flush_state_spec e Hinv) as (h & P' & EP & _ & _ & Hb). rewrite EP. exact Hb.
+Qed.
+
+Lemma enc_terminate_fl : forall pterm e, enc_inv e -> enc_terminate e false pterm = Ok (fl pterm e).
+Proof.
+  intros [|] e Hinv; unfold enc_terminate; cbn [fl]; [|reflexivity].
+  destruct (enc_erterm_no_marker e Hinv) as (Hpan & Hfuel & _).
+  destruct (Z.ltb_spec 0 (fst (enc_erterm_loop 4 (11 - e_ct e + 1) e))); [lia|]. rewrite Hpan. reflexivity.
+Qed.
+
+Lemma seg_fn_false : forall cx l, seg_fn false cx l = enc_flush (enc_encode_list (enc_new_cx cx) l).
+Proof. intros. unfold seg_fn, enc_flush. cbn [fl]. reflexivity. Qed.
+
+Lemma seg_fn_true : forall cx l, seg_fn true cx l = enc_get_buffer (enc_erterm (enc_encode_list (enc_new_cx cx) l)).
+Proof. intros. unfold seg_fn. cbn [fl]. reflexivity. Qed.
+
+(* the fresh codeword: buffer shape, last byte, and what a decoder started on it returns *)
+Lemma fresh_segment : forall pterm cx l, Forall cx_ok cx -> Forall (decision_ok (zlen cx)) l ->
+  let en := enc_encode_list (enc_new_cx cx) l in
+  rev (e_pre (fl pterm en)) = 0 :: seg_fn pterm cx l /\ last (seg_fn pterm cx l) 0 <> 255 /\
+  exists dd d', dec_new_cx (seg_fn pterm cx l) cx = Ok dd /\
+    dec_decode_list dd (map snd l) = Ok (d', map fst l) /\ d_cx d' = e_cx en.
+Proof.
+  intros pterm cx l Hcx Hl. cbv zeta. destruct pterm.
+  - rewrite seg_fn_true. cbn [fl].
+    destruct (mq_erterm_segment cx l Hcx Hl) as (_ & _ & seg & E1 & E2 & E3 & E4).
+    cbv zeta in E1, E2, E3, E4. rewrite <- E2. auto.
+  - rewrite seg_fn_false. cbn [fl].
+    destruct (mq_segment_rt cx l Hcx Hl) as (E1 & Hne & E4). cbv zeta in E1, Hne, E4.
+    split; [exact E1|]. split; [|exact E4].
+    assert (Hinv : enc_inv (enc_encode_list (enc_new_cx cx) l)) by (apply enc_encode_list_inv; apply enc_new_inv; exact Hcx).
+    destruct (flush_state_spec _ Hinv) as (h & P' & EP & _ & Hh & _).
+    rewrite EP in E1. cbn [rev] in E1.
+    destruct (last_rev_cons h P' 0 _ E1) as [E|E]; [congruence|rewrite E; exact Hh].
+Qed.
+
 Lemma sim_restart' : forall e h P, e_pre e = h :: P -> h <> 255 ->
   shift_sim h P (enc_new_cx (e_cx e)) (enc_restart_init e).
 Proof.
@@ -94,56 +154,63 @@ Proof.
   - eexists; reflexivity.
 Qed.
 
-Opaque enc_flush enc_encode_list enc_new_cx enc_flush_state enc_restart_init.
+Lemma sim_fl : forall pterm h P ef er, h <> 255 -> 0 <= h < 256 -> shift_sim h P ef er ->
+  flushed_sim h P (fl pterm ef) (fl pterm er).
+Proof. intros [|] h P ef er Hh Hb Hs; [apply sim_erterm|apply sim_flush_state]; assumption. Qed.
+
+Lemma last_app_ne : forall (a b : list Z), last a 0 <> 255 -> last b 0 <> 255 -> last (a ++ b) 0 <> 255.
+Proof.
+  intros a b Ha Hb. destruct b as [|x b']; [rewrite app_nil_r; exact Ha|].
+  destruct (exists_last (l := x :: b') ltac:(discriminate)) as (b0 & y & E). rewrite E in *.
+  rewrite app_assoc, last_last. rewrite last_last in Hb. exact Hb.
+Qed.
+
+Lemma hd_rev_last : forall (d : list Z), hd 0 (rev d ++ [0]) = last d 0.
+Proof.
+  intros d. destruct d as [|x d'] using rev_ind; [reflexivity|].
+  rewrite rev_app_distr, last_last. reflexivity.
+Qed.
+
+Opaque enc_flush enc_encode_list enc_new_cx enc_flush_state enc_restart_init enc_erterm.
 
 (* one restarted segment *)
-Lemma restart_segment : forall e data0 l, TI e -> e_pre e = rev data0 ++ [0] ->
+Lemma restart_segment : forall pterm e data0 l, TI e -> e_pre e = rev data0 ++ [0] -> last data0 0 <> 255 ->
   Forall (decision_ok 19) l ->
-  let er := enc_flush_state (enc_encode_list (enc_restart_init e) l) in
-  let seg := enc_flush (enc_encode_list (enc_new_cx (e_cx e)) l) in
-  e_pre er = rev (data0 ++ seg) ++ [0] /\ seg <> [] /\ last seg 0 <> 255 /\
+  let er := fl pterm (enc_encode_list (enc_restart_init e) l) in
+  let seg := seg_fn pterm (e_cx e) l in
+  e_pre er = rev (data0 ++ seg) ++ [0] /\ last seg 0 <> 255 /\
   e_cx er = e_cx (enc_encode_list (enc_new_cx (e_cx e)) l) /\
   (exists h P, e_pre er = h :: P /\ h <> 255 /\ buf_ok (h :: P)).
 Proof.
-  intros e data0 l HTI Hpre Hl er seg.
+  intros pterm e data0 l HTI Hpre Hlast0 Hl er seg.
   pose proof HTI as (h & P & E & Hh & Hb & Hcx & Hlen).
   destruct (buf_ok_head _ _ Hb) as [Hbyte _]. unfold is_byteP in Hbyte.
   (* the fresh run *)
-  destruct (mq_segment_rt (e_cx e) l Hcx ltac:(rewrite Hlen; exact Hl)) as (Hfr & Hne & _).
-  cbv zeta in Hfr, Hne. fold seg in Hfr, Hne.
-  set (ef := enc_flush_state (enc_encode_list (enc_new_cx (e_cx e)) l)) in *.
+  destruct (fresh_segment pterm (e_cx e) l Hcx ltac:(rewrite Hlen; exact Hl)) as (Hfr & Hlast & _).
+  cbv zeta in Hfr. fold seg in Hfr, Hlast.
+  set (ef := fl pterm (enc_encode_list (enc_new_cx (e_cx e)) l)) in *.
   clearbody seg.
   assert (Hef : e_pre ef = rev seg ++ [0]).
   { apply (f_equal (@rev Z)) in Hfr. rewrite rev_involutive in Hfr. rewrite Hfr. cbn [rev]. reflexivity. }
   (* the simulation *)
-  pose proof (sim_flush_state h P _ _ Hh Hbyte
+  pose proof (sim_fl pterm h P _ _ Hh Hbyte
                 (sim_encode_list h P l _ _ Hh Hbyte (sim_restart' e h P E Hh))) as Hsim.
   fold ef in Hsim. fold er in Hsim.
   destruct Hsim as [(B & d & EB & Hd)|(Ecx & B & EBf & EBr)].
   { rewrite Hef in EB. apply app_inj_tail in EB. destruct EB as [_ Ed]. congruence. }
   rewrite Hef in EBf. apply app_inj_tail in EBf. destruct EBf as [EB _]. subst B.
-  (* the restarted run keeps the encoder invariant *)
   assert (Hinvr : enc_inv (enc_encode_list (enc_restart_init e) l))
     by (apply enc_encode_list_inv; apply restart_inv; exact HTI).
-  destruct (flush_state_spec _ Hinvr) as (h' & P' & EP & _ & Hh' & Hb').
-  fold er in EP.
-  split.
-  - rewrite EBr. rewrite E in Hpre.
-    assert (EPd : P = tl (rev data0 ++ [0]) /\ True) by (rewrite <- Hpre; auto).
-    rewrite rev_app_distr, <- app_assoc. f_equal.
-    (* h :: P = rev data0 ++ [0] *)
-    exact Hpre.
-  - split; [exact Hne|]. split.
-    + (* last byte of the segment = head of the buffer *)
-      assert (Hh2 : rev seg = h' :: firstn (length (rev seg) - 1) (tl (rev seg)) \/ True) by auto.
-      destruct (rev seg) as [|x xs] eqn:Er.
-      { apply (f_equal (@rev Z)) in Er. rewrite rev_involutive in Er. cbn in Er. congruence. }
-      rewrite EBr in EP. cbn [app] in EP. injection EP as Ex _. subst x.
-      assert (Es : seg = rev xs ++ [h']).
-      { apply (f_equal (@rev Z)) in Er. rewrite rev_involutive in Er. exact Er. }
-      rewrite Es, last_last. exact Hh'.
-    + split; [|exists h', P'; auto].
-      rewrite <- Ecx. unfold ef. apply flush_state_cx.
+  assert (Hpre2 : e_pre er = rev (data0 ++ seg) ++ [0]).
+  { rewrite EBr. rewrite E in Hpre. rewrite rev_app_distr, <- app_assoc. f_equal. exact Hpre. }
+  split; [exact Hpre2|]. split; [exact Hlast|]. split.
+  - rewrite <- Ecx. unfold ef. apply fl_cx.
+  - pose proof (fl_buf_ok pterm _ Hinvr) as Hbo. fold er in Hbo.
+    pose proof (hd_rev_last (data0 ++ seg)) as Hhd. rewrite <- Hpre2 in Hhd.
+    destruct (e_pre er) as [|h' P'] eqn:Eer.
+    { apply (f_equal (@length Z)) in Hpre2. rewrite app_length in Hpre2. cbn [length] in Hpre2. lia. }
+    exists h', P'. split; [reflexivity|]. split; [|exact Hbo].
+    cbn [hd] in Hhd. rewrite Hhd. apply last_app_ne; assumption.
 Qed.
 
 (* ---------- all passes ---------- *)
@@ -172,28 +239,29 @@ Qed.
 
 Lemma enc_bytes_termall_tail : forall style maxbp pl syms e data0, termall_style style ->
   length syms = length pl -> Forall (Forall sym_mq) syms -> TI e -> e_pre e = rev data0 ++ [0] ->
+  last data0 0 <> 255 ->
   let reset := negb (Z.land style CblkStyleReset =? 0) in
-  let segs := segs_of reset (e_cx e) (map decs syms) in
+  let pterm := negb (Z.land style CblkStylePterm =? 0) in
+  let segs := segs_of pterm reset (e_cx e) (map decs syms) in
   exists e',
     enc_bytes_passes style maxbp pl syms true e = Ok ((e', true), term_ps pl (zlen data0) segs) /\
     e_pre e' = rev (data0 ++ concat segs) ++ [0] /\
-    Forall (fun s => s <> [] /\ last s 0 <> 255) segs /\ length segs = length pl.
+    Forall (fun s => last s 0 <> 255) segs /\ length segs = length pl.
 Proof.
-  intros style maxbp pl. induction pl as [|[bp pt] r IH]; intros syms e data0 Hs Hlen Hsy HTI Hpre reset segs.
+  intros style maxbp pl. induction pl as [|[bp pt] r IH]; intros syms e data0 Hs Hlen Hsy HTI Hpre Hl0 reset pterm segs.
   - destruct syms; [|discriminate]. exists e. cbn. rewrite app_nil_r. auto.
   - destruct syms as [|ss syms']; [discriminate|]. cbn [length] in Hlen.
     pose proof (Forall_inv Hsy) as Hss. pose proof (Forall_inv_tail Hsy) as Hsy'.
     pose proof HTI as (h0 & P0 & _ & _ & _ & Hcx0).
     cbn [enc_bytes_passes].
     rewrite (termall_raw style bp maxbp pt Hs), (termall_term style bp maxbp pt Hs).
-    destruct (termall_bits style Hs) as (_ & Epterm & _). rewrite Epterm. change (negb (0 =? 0)) with false.
-    cbv iota.
+    fold pterm. cbv iota.
     pose proof (restart_inv e HTI) as Hinv1.
     rewrite (enc_syms_o_mq ss _ Hss Hinv1 ltac:(rewrite restart_cx; apply Hcx0)). cbn [obind].
-    unfold enc_terminate. cbn [obind].
-    destruct (restart_segment e data0 (decs ss) HTI Hpre (sym_mq_decision ss Hss)) as (Hpre2 & Hne & Hlast & Hcx2 & Hhd).
-    set (er := enc_flush_state (enc_encode_list (enc_restart_init e) (decs ss))) in *.
-    set (seg := enc_flush (enc_encode_list (enc_new_cx (e_cx e)) (decs ss))) in *.
+    rewrite (enc_terminate_fl pterm _ (enc_encode_list_inv _ _ Hinv1)). cbn [obind].
+    destruct (restart_segment pterm e data0 (decs ss) HTI Hpre Hl0 (sym_mq_decision ss Hss)) as (Hpre2 & Hlast & Hcx2 & Hhd).
+    set (er := fl pterm (enc_encode_list (enc_restart_init e) (decs ss))) in *.
+    set (seg := seg_fn pterm (e_cx e) (decs ss)) in *.
     change (set3_e (enc_reset_contexts er)) with (r_e er). fold reset.
     assert (Hcxer : cxs_ok (e_cx er)).
     { rewrite Hcx2. apply (next_cx_ok false (e_cx e) (decs ss)). exact Hcx0. }
@@ -204,45 +272,48 @@ Proof.
     { unfold next_cx. destruct reset.
       - rewrite r_e_cxset. cbn [cxset e_cx]. apply reset_cx_19. apply Hcxer.
       - exact Hcx2. }
-    destruct (IH syms' (if reset then r_e er else er) (data0 ++ seg) Hs ltac:(lia) Hsy' HTI2 Hpre3)
+    destruct (IH syms' (if reset then r_e er else er) (data0 ++ seg) Hs ltac:(lia) Hsy' HTI2 Hpre3
+                 (last_app_ne _ _ Hl0 Hlast))
       as (e' & E & Hpre' & Hsegs & Hlen').
-    fold reset in E, Hpre', Hsegs, Hlen'. rewrite Hcx3 in E, Hpre', Hsegs, Hlen'.
+    fold reset pterm in E, Hpre', Hsegs, Hlen'. rewrite Hcx3 in E, Hpre', Hsegs, Hlen'.
     rewrite E. cbn [obind fst snd].
     exists e'. unfold segs. cbn [map segs_of concat term_ps length]. fold seg.
     rewrite (num_bytes_pre _ _ Hpre3).
     replace (zlen (data0 ++ seg)) with (zlen data0 + zlen seg) in * by (unfold zlen; rewrite app_length; lia).
     split; [reflexivity|]. split; [rewrite app_assoc; exact Hpre'|].
-    split; [constructor; [split; assumption|exact Hsegs]|]. rewrite Hlen'. reflexivity.
+    split; [constructor; assumption|]. rewrite Hlen'. reflexivity.
 Qed.
 
 (* ---------- normalizePassRates does nothing on these passes ---------- *)
 Fixpoint desc_ok (data : list Z) (psr : list passrec) (hi : Z) : Prop :=
   match psr with
   | [] => True
-  | p :: r => p_rate p <= hi /\ p_actual p = p_rate p /\ 0 < p_rate p <= zlen data /\
-              znth data (p_rate p - 1) 0 <> 255 /\ desc_ok data r (p_rate p)
+  | p :: r => p_rate p <= hi /\ p_actual p = p_rate p /\
+              (p_rate p <= 0 \/ znth data (p_rate p - 1) 0 <> 255) /\ desc_ok data r (p_rate p)
   end.
 
 Lemma normalize_rev_id : forall data psr hi, desc_ok data psr hi -> normalize_rev data psr hi = psr.
 Proof.
   intros data psr. induction psr as [|p r IH]; intros hi H; cbn [normalize_rev]; [reflexivity|].
-  destruct H as (H1 & H2 & H3 & H4 & H5).
+  destruct H as (H1 & H2 & H4 & H5).
   destruct (Z.ltb_spec hi (p_rate p)); [lia|].
   replace ((0 <? p_rate p) && (p_rate p <=? zlen data) && (znth data (p_rate p - 1) 0 =? 255)) with false.
-  2:{ symmetry. apply andb_false_iff. right. apply Z.eqb_neq. exact H4. }
+  2:{ symmetry. destruct H4 as [H4|H4].
+      - replace (0 <? p_rate p) with false by (symmetry; apply Z.ltb_ge; lia). reflexivity.
+      - apply andb_false_iff. right. apply Z.eqb_neq. exact H4. }
   rewrite H2. destruct (Z.ltb_spec (p_rate p) (p_rate p)); [lia|].
   rewrite (IH _ H5). destruct p; cbn in *. subst. reflexivity.
 Qed.
 
 Lemma desc_ok_snoc : forall data X p hi, desc_ok data X hi ->
   p_rate p <= hi -> (forall q, In q X -> p_rate p <= p_rate q) ->
-  p_actual p = p_rate p -> 0 < p_rate p <= zlen data -> znth data (p_rate p - 1) 0 <> 255 ->
+  p_actual p = p_rate p -> (p_rate p <= 0 \/ znth data (p_rate p - 1) 0 <> 255) ->
   desc_ok data (X ++ [p]) hi.
 Proof.
-  intros data X. induction X as [|q X IH]; intros p hi HX Hhi Hall Ha Hr Hb.
+  intros data X. induction X as [|q X IH]; intros p hi HX Hhi Hall Ha Hb.
   - cbn. auto.
-  - cbn [app desc_ok] in *. destruct HX as (H1 & H2 & H3 & H4 & H5).
-    repeat split; auto; try lia. apply IH; auto.
+  - cbn [app desc_ok] in *. destruct HX as (H1 & H2 & H4 & H5).
+    repeat split; auto. apply IH; auto.
     + apply Hall. left. reflexivity.
     + intros q' Hq'. apply Hall. right. exact Hq'.
 Qed.
@@ -255,37 +326,40 @@ Proof.
   destruct Hq as [<-|Hq]; [cbn; lia|]. specialize (IH _ _ _ Hq). lia.
 Qed.
 
-Lemma znth_app_last : forall (a s r : list Z), s <> [] -> znth (a ++ s ++ r) (zlen a + zlen s - 1) 0 = last s 0.
+Lemma znth_last : forall (a r : list Z), a <> [] -> znth (a ++ r) (zlen a - 1) 0 = last a 0.
 Proof.
-  intros a s r Hs. unfold znth, zlen.
-  destruct (exists_last Hs) as (s' & x & ->). rewrite last_last, app_length. cbn [length].
-  destruct (Z.ltb_spec (Z.of_nat (length a) + Z.of_nat (length s' + 1) - 1) 0); [lia|].
-  replace (Z.to_nat (Z.of_nat (length a) + Z.of_nat (length s' + 1) - 1)) with (length a + length s')%nat by lia.
-  rewrite app_nth2 by lia. replace (length a + length s' - length a)%nat with (length s') by lia.
-  rewrite <- app_assoc. rewrite app_nth2 by lia. replace (length s' - length s')%nat with O by lia. reflexivity.
+  intros a r Ha. unfold znth, zlen.
+  destruct (exists_last Ha) as (a' & x & ->). rewrite last_last, app_length. cbn [length].
+  destruct (Z.ltb_spec (Z.of_nat (length a' + 1) - 1) 0); [lia|].
+  replace (Z.to_nat (Z.of_nat (length a' + 1) - 1)) with (length a') by lia.
+  rewrite <- app_assoc. rewrite app_nth2 by lia. rewrite Nat.sub_diag. reflexivity.
 Qed.
 
 Lemma term_ps_desc : forall pl segs data0 hi,
-  Forall (fun s => s <> [] /\ last s 0 <> 255) segs ->
+  Forall (fun s => last s 0 <> 255) segs -> last data0 0 <> 255 ->
   zlen data0 + zlen (concat segs) <= hi ->
   forall tail, desc_ok (data0 ++ concat segs ++ tail) (rev (term_ps pl (zlen data0) segs)) hi.
 Proof.
-  induction pl as [|[bp pt] pl IH]; intros segs data0 hi Hsegs Hhi tail; [exact I|].
+  induction pl as [|[bp pt] pl IH]; intros segs data0 hi Hsegs Hl0 Hhi tail; [exact I|].
   destruct segs as [|s segs]; [exact I|]. cbn [term_ps rev concat] in *.
-  pose proof (Forall_inv Hsegs) as [Hne Hlast]. pose proof (Forall_inv_tail Hsegs) as Hsegs'.
+  pose proof (Forall_inv Hsegs) as Hlast. pose proof (Forall_inv_tail Hsegs) as Hsegs'.
   assert (Hz : zlen (s ++ concat segs) = zlen s + zlen (concat segs)) by (unfold zlen; rewrite app_length; lia).
   assert (Hz2 : zlen (data0 ++ s) = zlen data0 + zlen s) by (unfold zlen; rewrite app_length; lia).
   pose proof (Zle_0_nat (length (concat segs))) as Hc0. fold (zlen (concat segs)) in Hc0.
   pose proof (Zle_0_nat (length data0)) as Hd0. fold (zlen data0) in Hd0.
-  assert (Hs1 : 1 <= zlen s).
-  { unfold zlen. destruct s; [congruence|cbn [length]; lia]. }
+  pose proof (Zle_0_nat (length s)) as Hs0. fold (zlen s) in Hs0.
   apply desc_ok_snoc.
   - rewrite <- Hz2. replace (data0 ++ (s ++ concat segs) ++ tail) with ((data0 ++ s) ++ concat segs ++ tail)
       by (rewrite <- !app_assoc; reflexivity).
-    apply IH; [exact Hsegs'|]. rewrite Hz2. lia.
+    apply IH; [exact Hsegs'|apply last_app_ne; assumption|]. rewrite Hz2. lia.
   - cbn [p_rate]. lia.
   - intros q Hq. apply in_rev in Hq. cbn [p_rate]. apply term_ps_rates_ge in Hq. exact Hq.
   - reflexivity.
-  - cbn [p_rate]. unfold zlen in *. rewrite !app_length. lia.
-  - cbn [p_rate]. rewrite <- (app_assoc s). rewrite znth_app_last by exact Hne. exact Hlast.
+  - cbn [p_rate].
+    assert (Hcases : data0 ++ s = [] \/ data0 ++ s <> []) by (destruct (data0 ++ s); [left|right]; congruence).
+    destruct Hcases as [E|E].
+    + left. rewrite <- Hz2, E. change (zlen (@nil Z)) with 0. lia.
+    + right. replace (data0 ++ (s ++ concat segs) ++ tail) with ((data0 ++ s) ++ (concat segs ++ tail))
+        by (rewrite <- !app_assoc; reflexivity).
+      rewrite <- Hz2. rewrite znth_last by exact E. apply last_app_ne; assumption.
 Qed.
